@@ -51,6 +51,8 @@ def run(P, R, tier):
         R.check(cv.calls_any("bincount"), "DEP.variances", f.key, f"variances = {src(v)}", "normalised by the cluster count", "cluster variances are not normalised by the cluster count", r.lineno)
     check_reduce_cover(P, R)
     check_accumulator_allocation(P, R)
+    from .C06 import check_cluster_masks
+    check_cluster_masks(P, R)
     # GMM initialisation from the k-means result
     _rest(P, R)
 
